@@ -289,7 +289,7 @@ def check_grid(case):
                         nt.add(unit + '|midnight|' + ('+' if n > 0 else '-'))
             # ---- monotone in t (b only), on the implementation's own results
             if unit == 'b':
-                if prev is not None and good:
+                if prev is not None:
                     for n, p, r in zip(ns, prev, rs):
                         nsub += 1
                         if p is not None and r is not None and p > r:
